@@ -317,6 +317,7 @@ def run_check(prop, spec, tier, replay_path=None):
         shutil.rmtree(wdir)
     os.makedirs(wdir)
     violations = []   # (replay path, message)
+    replayed = [0]    # confirmation replays executed (they are evaluations too)
     known_hits = []
     notes = []
     budget = spec.get('budget_ms', {}).get(tier, 60 if tier == 'quick' else 1000)
@@ -333,6 +334,7 @@ def run_check(prop, spec, tier, replay_path=None):
         rp = os.path.join(rdir, hid + '.case')
         open(rp, 'wb').write(data)
         nfail, msg = chk.replay(b_norc, rp, tier, 3)
+        replayed[0] += 3
         if nfail < 3:
             notes.append('unconfirmed failure (replayed %d/3): %s %s' % (nfail, why, msg))
             os.unlink(rp)
@@ -462,7 +464,7 @@ def run_check(prop, spec, tier, replay_path=None):
     distinct = tot['distinct_seen'] + tot['distinct_by_construction']
     # group classes for the evidence (top-level prefix sums + full histogram, capped)
     cov = dict(
-        evaluations=tot['evaluations'] + nreg,
+        evaluations=tot['evaluations'] + nreg + replayed[0],
         distinct_nontrivial=distinct,
         rule=spec['rule'],
         samples=tot['samples'] or ['(no sample recorded)'],
